@@ -38,6 +38,23 @@ case "${1:-}" in
   build) build; exit 0;;
   replay) build; exec "$BIN" replayfile "$2";;
   "") echo "usage: check.sh <Cxx> <quick|thorough> | replay <file> | build" >&2; exit 2;;
+  C01)
+    # determinism: separate binary in which every range over a map in the consensus packages is
+    # rewritten (rangeperm, from the CURRENT tree) to an order the explorer controls
+    build
+    (cd "$VERIF/rangeperm" && go build -o "$VERIF/bin/rangeperm" .) || { echo "HARNESS-ERROR: rangeperm build failed" >&2; exit 2; }
+    RP="$BIN.c01"; rm -rf "$RP"; mkdir -p "$RP"
+    "$VERIF/bin/rangeperm" -repo "$REPO" -dir "$SRC" -out "$RP" >&2 || { echo "HARNESS-ERROR: rangeperm failed" >&2; exit 2; }
+    python3 - "$BIN.overlay.json" "$RP/rangeperm.json" "$REPO" "$VERIF" > "$RP/overlay.json" <<'PYEOF'
+import json,sys
+base=json.load(open(sys.argv[1]))["Replace"]
+rp=json.load(open(sys.argv[2]))["overlay"]
+base.update(rp)
+base[sys.argv[3]+"/verifrt/verifrt.go"]=sys.argv[4]+"/overlay/c01/verifrt/verifrt.go"
+print(json.dumps({"Replace":base}))
+PYEOF
+    (cd "$SRC" && go build -tags "verif c01" -overlay "$RP/overlay.json" -o "$BIN-c01" ./cmd/pvmc 2> "$BIN-c01.build.log") || { grep -v 'sqlite3-binding\|return pNew\|Select standin\|\^~\|declared here\|^# github.com/mattn' "$BIN-c01.build.log" >&2; echo "HARNESS-ERROR: C01 build failed" >&2; exit 2; }
+    PVMC_RANGEPERM_REPORT="$RP/rangeperm.json" exec "$BIN-c01" check "$1" "${2:-quick}";;
   C18)
     build
     # separate free-running pass under the race detector (same harness bodies, no cooperative scheduler)
